@@ -14,7 +14,8 @@
     `Err(the raised flags)` (C04's clause for the trait form; seeded change C04-4 lived here);
   * `from_ref_eq` — `From<&str>`: the value, nearest-even, flags dropped;
   * `nan_empty`, `nan_nonempty` — exactly which bits `d128::nan(tag)` takes from the parsed tag;
-  * `text_total` — C15 for the six wrappers: if `cs` returns normally, so does each of them.
+  * `text_total` — C15 for the six wrappers: if `cs` returns normally, so does each of them;
+  * `display_eq`, `debug_eq`, `upperexp_eq`, `lowerexp_eq` — the four formatter impls over the formatter `ts` as a parameter.
   The tie of `cs` itself to the compiled code is the H level of C04 (`DecModel/Scan.lean`, `ScanNum.lean`, `corr scanner-model`);
   `judgehk` runs this translated glue over that model on every observed text call (`corr translated-code`).
 
@@ -121,5 +122,28 @@ theorem run3s_convert (cs : CS) (om : Option RoundingMode) (f : UInt32) (s : Str
       = some ((cs s (om.getD .NearestEven) 0).map fun p => (TVal.d p.1, f ||| p.2)) := by
   show some ((d128_convert_from_decimal_character cs s om f).map fun (r, f) => (TVal.d r, f)) = _
   rw [convert_eq, from_string_eq]; cases cs s (om.getD .NearestEven) 0 <;> rfl
+
+/-! ## The four formatter impls, relative to the formatter -/
+
+/-- the type of the formatter `bid128_to_string(x, fmt, upperExp) -> fmt::Result`: text written so far ↦ (`Ok`?, text) -/
+abbrev TS := U128 → List UInt8 → Bool → Except String (Bool × List UInt8)
+
+/-- **`{}`, `{:?}` and `{:E}` are the same call `bid128_to_string(x, fmt, true)`; `{:e}` is `bid128_to_string(x, fmt, false)`** —
+for any formatter `ts`, any pattern and any text already written (C05: "E, e for LowerExp") -/
+theorem display_eq (ts : TS) (x : U128) (buf : List UInt8) : d128_Display_fmt ts x buf = ts x buf true := by
+  unfold d128_Display_fmt; cases h : ts x buf true <;> simp [bind, Except.bind, pure, Except.pure, h]
+theorem debug_eq (ts : TS) (x : U128) (buf : List UInt8) : d128_Debug_fmt ts x buf = ts x buf true := by
+  unfold d128_Debug_fmt; cases h : ts x buf true <;> simp [bind, Except.bind, pure, Except.pure, h]
+theorem upperexp_eq (ts : TS) (x : U128) (buf : List UInt8) : d128_UpperExp_fmt ts x buf = ts x buf true := by
+  unfold d128_UpperExp_fmt; cases h : ts x buf true <;> simp [bind, Except.bind, pure, Except.pure, h]
+theorem lowerexp_eq (ts : TS) (x : U128) (buf : List UInt8) : d128_LowerExp_fmt ts x buf = ts x buf false := by
+  unfold d128_LowerExp_fmt; cases h : ts x buf false <;> simp [bind, Except.bind, pure, Except.pure, h]
+
+/-- the regenerated dispatch of the four formatting operations -/
+theorem run3f_eq (ts : TS) (x : U128) (buf : List UInt8) :
+    run3f ts "display" x buf = some (ts x buf true) ∧ run3f ts "debug" x buf = some (ts x buf true) ∧
+    run3f ts "upperexp" x buf = some (ts x buf true) ∧ run3f ts "lowerexp" x buf = some (ts x buf false) :=
+  ⟨congrArg some (display_eq ts x buf), congrArg some (debug_eq ts x buf), congrArg some (upperexp_eq ts x buf),
+   congrArg some (lowerexp_eq ts x buf)⟩
 
 end Dec.C14GenTextGlue
